@@ -34,6 +34,8 @@ NAMEFORMS = [(None, "q1"), ("s", "q1"), (None, '"Q1"'), ('"S"', '"Q1"'), ("s", '
 TAB_BEFORE = "CREATE TABLE tb (increment int, start int, cache int DEFAULT 3);"
 TAB_AFTER = "CREATE TABLE ta (cache int, minvalue int, maxvalue int, no int, noorder int);"
 SEQ2 = "CREATE SEQUENCE s.q2 START 7;"
+# statements that do not begin with CREATE, placed right after the sequence: sequence keyword mode must be over by then
+ALTER_AFTER = "ALTER TABLE tb ADD CONSTRAINT u1 UNIQUE (start);\nALTER TABLE tb ADD CONSTRAINT c1 CHECK (cache > 0);"
 CASEF = {"upper": str.upper, "lower": str.lower, "mixed": lambda s: "".join(c.lower() if i % 2 else c.upper() for i, c in enumerate(s))}
 
 
@@ -60,6 +62,7 @@ def gen_cases(tier):
             for v in range(1, len(VALS)):
                 cases.append({"sel": s, "voff": v, "kcase": "upper", "ctx": "alone"})
         if len(s) <= 2:
+            cases.append({"sel": s, "voff": 4, "kcase": "upper", "ctx": "then-alter"})
             cases.append({"sel": s, "voff": 3, "kcase": "upper", "ctx": "between"})
             cases.append({"sel": s, "voff": 5, "kcase": "mixed", "ctx": "noschema"})
             cases.append({"sel": s, "voff": 2, "kcase": "upper", "ctx": "twoseq"})
@@ -89,6 +92,8 @@ def build(case):
     st = (head + " " + (schema + "." if schema else "") + qname + " " + " ".join(parts)).rstrip() + ";"
     if case["ctx"] == "between":
         ddl = TAB_BEFORE + "\n" + st + "\n" + TAB_AFTER
+    elif case["ctx"] == "then-alter":
+        ddl = TAB_BEFORE + "\n" + st + "\n" + ALTER_AFTER
     elif case["ctx"] == "twoseq":
         ddl = SEQ2 + "\n" + st + "\n" + SEQ2.replace("q2", "q3")
     else:
@@ -107,6 +112,12 @@ def evaluate(case):
         if case["ctx"] in ("alone", "noschema"):
             if res != [exp]:
                 diffs.append(diff("sequence entity", "sequence-differs", exp, short(res)))
+        elif case["ctx"] == "then-alter":
+            ref = run_ddl(TAB_BEFORE + "\n" + ALTER_AFTER)[1]
+            if len(res) != 2 or res[1] != exp:
+                diffs.append(diff("sequence entity (before ALTER statements)", "sequence-differs", exp, short(res[1:2])))
+            if len(res) == 2 and res[0] != ref[0]:
+                diffs.append(diff("table altered right after the sequence", "neighbour-changed", short(ref[0]), short(res[0])))
         elif case["ctx"] == "between":
             ref_b, ref_a = run_ddl(TAB_BEFORE)[1], run_ddl(TAB_AFTER)[1]
             if len(res) != 3 or res[1] != exp:
